@@ -10,12 +10,13 @@ PARTIAL by design (DESIGN.md C19).  Proved here, over `Model/Lint/{Regex,LineRul
   * seeded-edit and undo theorems for the modelled line rules; `exit_is_count`.
 NOT modelled (covered by seeded edits on the implementation in harness/c19.py only): the token-level
 parsers (namespace versus path, forward declarations), MultiConditionChecker, SingleLineValidator,
-strip_comments_and_strings, include order / first include (C20 models the comparison), DepsChecker.
+strip_comments_and_strings, include order / first include (C20 models the comparison).
 The snapshot's dead rule "Empty line after #pragma once" is repaired in /repo; the model follows the
 repaired code and `seeded_blank_after_pragma` states the rule as a seeded-edit theorem.
 -/
 import SymbolVerif.Proofs.RegexLemmas
 import SymbolVerif.Proofs.LineRulesLemmas
+import SymbolVerif.Proofs.DepsLemmas
 import SymbolVerif.Generated.LintTables
 namespace SymbolVerif.C19
 open SymbolVerif.Lint.Regex SymbolVerif.Lint.Rules
@@ -289,6 +290,84 @@ theorem seeded_blank_after_pragma (pre rest : List Str) (inc : Str)
 example : AfterNotice (stateAfter (pragmaOnce true) (pragmaOnce true).reset 1
     ["/**".toList, "*** Copyright".toList, "**/".toList, [] ]) := by
   refine ⟨?_, ?_, ?_⟩ <;> decide +kernel
+
+/-! ### DepsChecker: closure of the rules, and the verdict of `match` -/
+
+open SymbolVerif.Lint.Deps in
+/-- `process_rules` computes the transitive closure of the expanded rules: every name that has a rule
+    gets an entry, and the entry holds exactly what the name reaches in the rule graph. -/
+theorem deps_closure_spec (edges : List Edge) (final : List (Deps.Str × List Deps.Str))
+    (h : processRules edges = some final) :
+    (∀ k, k ∈ keysOf edges → ∃ R, final.lookup k = some R) ∧
+    (∀ k R, final.lookup k = some R → ∀ d, d ∈ R ↔ Reach edges k d) := by
+  have hinit : Inv edges (keysOf edges) [] := ⟨fun k hk => Or.inl hk, fun k R hm => by simp at hm⟩
+  obtain ⟨h1, h2⟩ := processGo_inv edges _ _ [] final hinit h
+  refine ⟨fun k hk => ?_, fun k R hl => h2 k R (lookup_mem hl)⟩
+  rcases h1 k hk with hn | hd
+  · simp at hn
+  · exact lookup_of_key hd
+
+open SymbolVerif.Lint.Deps in
+/-- the decision of `DepsChecker.match`, made explicit: an include is accepted iff some closed rule has a
+    source pattern matching the WHOLE source directory and a destination pattern matching the WHOLE
+    (local-include-fixed) destination directory -/
+theorem allowed_iff (re : Deps.Str → RE) (rules : List (Deps.Str × List Deps.Str)) (src dest : Deps.Str) :
+    allowed re rules src dest = true ↔
+      ∃ p ds, (p, ds) ∈ rules ∧ fullMatch (re p) src = true ∧ ∃ q ∈ ds, fullMatch (re q) (fixedDest src dest) = true := by
+  unfold allowed
+  simp only [List.any_eq_true, Bool.and_eq_true]
+  constructor
+  · rintro ⟨⟨p, ds⟩, hm, hs, q, hq, hd⟩
+    exact ⟨p, ds, hm, hs, q, hq, hd⟩
+  · rintro ⟨p, ds, hm, hs, q, hq, hd⟩
+    exact ⟨(p, ds), hm, hs, q, hq, hd⟩
+
+open SymbolVerif.Lint.Deps in
+/-- a deps.config name without `.` compiles to a pattern that matches exactly the name -/
+theorem compileName_literal : ∀ (name : Deps.Str), '.' ∉ name → literalOf (compileName name) = some name
+  | [], _ => rfl
+  | c :: rest, h => by
+    have hc : c ≠ '.' := fun e => h (by simp [e])
+    have hr : '.' ∉ rest := fun e => h (List.mem_cons_of_mem _ e)
+    have ih := compileName_literal rest hr
+    have : compileName (c :: rest) = .seq (.lit c) (compileName rest) := by
+      unfold compileName
+      split
+      · next heq => cases heq; exact absurd rfl hc
+      · next heq => cases heq; exact absurd rfl hc
+      · next heq => cases heq; rfl
+    rw [this]
+    simp [literalOf, ih]
+
+open SymbolVerif.Lint.Deps in
+/-- anchoring: a source directory that merely EXTENDS the source of a rule (by a name suffix such as
+    `catapult/io` → `catapult/ionet`, or by a path component) gets nothing from that rule: a rule source
+    without wildcard matches the whole source string or not at all. -/
+theorem allowed_needs_full_source_match (name ext : Deps.Str) (hdot : '.' ∉ name)
+    (h : fullMatch (compileName name) (name ++ ext) = true) : ext = [] := by
+  have hlit := compileName_literal name hdot
+  have hm := (fullMatch_iff _ (literal_noCapture _ _ hlit) _).mp h
+  have := (matches_literal _ _ hlit _ _ _).mp hm
+  simpa using this
+
+open SymbolVerif.Lint.Deps in
+/-- ... so the verdict for an extended source can only come from OTHER rules: if every rule whose source
+    matches `name ++ ext` is the rule `name` itself, nothing is allowed. -/
+theorem extended_source_gets_nothing_from (name ext dest : Deps.Str) (ds : List Deps.Str) (hdot : '.' ∉ name)
+    (hext : ext ≠ []) : allowed compileName [(name, ds)] (name ++ ext) dest = false := by
+  cases hb : allowed compileName [(name, ds)] (name ++ ext) dest with
+  | false => rfl
+  | true =>
+    obtain ⟨p, ds', hm, hs, _⟩ := (allowed_iff _ _ _ _).mp hb
+    simp only [List.mem_singleton, Prod.mk.injEq] at hm
+    obtain ⟨rfl, _⟩ := hm
+    exact absurd (allowed_needs_full_source_match p ext hdot hs) hext
+
+/-- the deps.config of the working tree expands and closes without error (no define nested too deep,
+    no loop), re-checked on every run -/
+theorem shipped_deps_config_closes :
+    ((Deps.processDefines Generated.Lint.depsDefines Generated.Lint.depsLines).bind Deps.processRules).isSome = true := by
+  decide +kernel
 
 /-! ### exit status -/
 
